@@ -275,6 +275,87 @@ def run(ctx):
     if n9 < 1:
         raise AnalysisBroken("no constant advance of OrcParser.p found in orcparse.c")
 
+    # ---- D13: one line terminator per line ------------------------------------------------------------
+    # orc_parse_find_line_length ends the line before "\n", before "\r\n" (the CR is stripped) or at the end of the text;
+    # orc_parse_advance must then step over exactly that terminator: 2 bytes for CR LF, 1 for LF, 1 for a final CR, 0 at the
+    # NUL.  Stepping over only part of CR LF makes the rest count as one more (empty) line: every error record of a CRLF text
+    # then carries the wrong line number.  The function is walked concretely for the four terminator shapes.
+    from exprval import evaluate as _ev, NotPure as _NP
+    adv = db.func("orc_parse_advance", "orcparse")
+    rep.saw(adv)
+    start = [x for x in adv.walk() if x.k == "CompoundAssignOperator" and x.op == "+=" and (access_path(x.c[0]) or "").endswith("->p")
+             and (access_path(strip_casts(x.c[1])) or "").endswith("->line_length")]
+    if len(start) != 1:
+        raise AnalysisBroken("orc_parse_advance: `p += line_length` not found")
+    sp = adv.pos(start[0])
+    for text, want, label in (((13, 10, 65), 2, "CR LF"), ((10, 65, 65), 1, "LF"), ((13, 0, 0), 1, "CR at the end of the text"), ((0, 0, 0), 0, "end of the text")):
+        b, i, off, steps = sp[0], sp[1] + 1, 0, 0
+        res = None
+        while steps < 200:
+            steps += 1
+            blk = adv.blocks[b]
+            for e in blk.el[i:]:
+                if e.k == "UnaryOperator" and e.op in ("++", "--") and (access_path(e.c[0]) or "").endswith("->p"):
+                    off += 1 if e.op == "++" else -1
+                elif e.k == "CompoundAssignOperator" and e.op in ("+=", "-=") and (access_path(e.c[0]) or "").endswith("->p") and strip_casts(e.c[1]).v is not None:
+                    off += strip_casts(e.c[1]).v * (1 if e.op == "+=" else -1)
+            if b == adv.exit or not [s_ for s_ in blk.succs if s_ is not None]:
+                res = off
+                break
+            succ = [(j, s_) for j, s_ in enumerate(blk.succs) if s_ is not None]
+            if blk.cond is not None and len(succ) == 2:
+                base = next((access_path(x) for x in blk.cond.walk() if x.k == "MemberExpr" and x.name == "p"), "parser->p")
+                env = {"%s[%d]" % (base, j): (text[off + j] if 0 <= off + j < len(text) else 0) for j in range(-1, 3)}
+                try:
+                    v = bool(_ev(blk.cond, env))
+                except _NP as ex:
+                    raise AnalysisBroken("orc_parse_advance: condition `%s` not evaluable (%s)" % (unparse(blk.cond), ex))
+                b = [s_ for j, s_ in succ if adv.edge_kind(b, j) == v][0]
+            else:
+                b = succ[0][1]
+            i = 0
+        rep.check(res == want, "D13-LINE-TERMINATOR", where(adv), "after:%s" % label,
+                  "a line ending in %s is followed by a step of %d byte(s)" % (label, want),
+                  "after a line that ends with %s orc_parse_advance steps over %s byte(s) instead of %d: %s" %
+                  (label, res, want, "the rest of the terminator is read as one more, empty line, so every later line number (error records, instruction "
+                   "lines) is off" if res is not None and res < want else "the cursor passes the end of the line terminator (or of the text)"), line=start[0].line)
+
+    # ---- D14: refusals of the construction API reach the caller as error records ----------------------
+    # (a) a constructor that reports failure through its result (orc_program_add_constant_str: -1 not a number, 0 no room) has
+    #     that result tested at every call in the parser;
+    # (b) constructors that only record an error in the program (table full: temporaries, instructions ...) are covered by the
+    #     parse loop turning the program's error text into an error record after each handled line.
+    n14 = 0
+    for f in pfuncs:
+        for c in f.calls("orc_program_add_constant_str"):
+            n14 += 1
+            par = c.parent
+            while par is not None and par.k in ("ParenExpr", "CStyleCastExpr", "ImplicitCastExpr"):
+                par = par.parent
+            tested = par is not None and par.k == "BinaryOperator" and par.op in ("<", "<=", ">", ">=", "==", "!=")
+            if not tested and par is not None and ((par.k == "BinaryOperator" and par.op == "=") or par.k == "VarDecl"):
+                nm = access_path(par.c[0]) if par.k == "BinaryOperator" else par.name
+                tested = any(x.k == "BinaryOperator" and x.op in ("<", "<=", ">", ">=", "==", "!=") and nm in (access_path(x.c[0]), access_path(x.c[1]))
+                             for x in f.walk())
+            rep.check(tested, "D14-REFUSAL-REPORTED", where(f), "add_constant_str@%s" % c.line,
+                      "the result of orc_program_add_constant_str is tested",
+                      "%s ignores the result of orc_program_add_constant_str: a value that is not a number (or a full constant table) is dropped "
+                      "without an error record and only a later use of the name fails" % f.name, line=c.line)
+    pc14 = db.func("orc_parse_code", "orcparse")
+    hcalls = [c for c in pc14.calls() if c.name in ("orc_parse_handle_directive", "orc_parse_handle_opcode")]
+    gets = [c for c in pc14.calls("orc_program_get_error")]
+    adds = [c for c in pc14.calls("orc_parse_add_error")]
+    loops14 = [x for x in pc14.walk() if x.k in ("WhileStmt", "ForStmt") and all(any(a is x for a in h.ancestors()) for h in hcalls)]
+    okb = bool(hcalls) and bool(loops14) and any(any(a is loops14[-1] for a in g.ancestors()) and any(h.line < g.line for h in hcalls) for g in gets) and \
+        any(any(a is loops14[-1] for a in ad.ancestors()) for ad in adds)
+    n14 += 1
+    rep.check(okb, "D14-REFUSAL-REPORTED", where(pc14), "program-error-to-record",
+              "after each handled line the program's own error text is turned into an error record",
+              "orc_parse_code does not look at orc_program_get_error() after handling a line: what the construction API refuses because a table is "
+              "full (17th temporary, 101st instruction ...) produces no error record")
+    if n14 < 3:
+        raise AnalysisBroken("only %d refusal sites judged in orcparse.c" % n14)
+
     # ---- D8: parser state never keeps a freed pointer ---------------------
     # (a freed parser/program field left in place is freed again by orc_parse_code / orc_program_free,
     #  or handed to the caller through orc_parse_get_init_function)
